@@ -11,6 +11,7 @@
   Concrete examples are evaluated by the kernel (`with_unfolding_all decide`).
 -/
 import FwdVerif.Lemmas.C06
+import FwdVerif.Model.C04Gen
 
 namespace FwdVerif
 namespace C04
@@ -1134,6 +1135,16 @@ example :
     (match processRequestV .handler exCfg { clientIP := bs "10.0.0.1" }
         { exLocalGet with target := .absolute (bs "http") (bs "origin.test"), fields := exLocalGet.fields.drop 1 } with
       | .serverRefused => true | _ => false) = true := by
+  with_unfolding_all decide
+
+/-! ### Tie to the source: the built-in localhost names
+
+`Model/C04Gen.lean` is regenerated on every run from the `localhost: []string{…}` initialiser of
+`http_proxy.go`.  The names `isLocalhost` starts with in the model (before the hosts-file aliases are
+appended) are that list, in that order. -/
+
+theorem c04_generated_builtin_localhost_is_model :
+    C04Gen.builtinLocalhost.map Req.bs = builtinLocalhost := by
   with_unfolding_all decide
 
 end C04
